@@ -12,7 +12,7 @@ import ast
 
 from ..astutil import local_aliases, xtext, value_cases, calls_in, call_name, where, truthiness_tests
 from ..cfg import build_cfg
-from ..symtext import Expander
+from ..symtext import Expander, effect_calls
 from ..model import canonical_name
 from ..dataflow import sources_of, private_closure, reaching_defs, def_value, node_of_ast
 from ..facts import MODEL_CLASSES
@@ -382,9 +382,8 @@ def run(prog, rep):
                    for h in private_closure(f) for n in ast.walk(h.node))
         rep.check(good, "TAB-4", "%s writer emits list(tuple)" % fname, "ok", "tuple attributes are no longer emitted as lists", f.where)
         r = prog.func(READER_FUNCS[fname])
-        calls = [c for h in private_closure(r) for c in calls_in(h.node) if call_name(c) == "parse_cardinality"]
-        guard = any(isinstance(n, ast.If) and "endswith('_cardinality')" in unparse(n.test)
-                    and any(call_name(c) == "parse_cardinality" for c in calls_in(n)) for h in private_closure(r) for n in ast.walk(h.node))
+        calls = effect_calls(prog, r, lambda c: call_name(c).split(".")[-1] == "parse_cardinality")
+        guard = bool(calls) and all(any(t0.endswith(".endswith('_cardinality')") and p0 for t0, p0 in e0.guards()) for e0 in calls)
         rep.check(bool(calls) and guard, "TAB-4", "%s reader parses *_cardinality entries" % fname, "ok",
                   "cardinality entries are no longer passed through parse_cardinality", r.where)
     rep.assume("json/yaml dump and load preserve the structure of dictionaries, lists and strings")
